@@ -67,7 +67,8 @@ def random_exec(rng, nops, maxlen, alphabet):
             n = rng.choice([0, len(s) // 2, max(len(s) - 1, 0), len(s), len(s) + 7]); L.append("resize %d %d" % (o, n)); cur[o] = s[:n]
         elif r < 0.80:
             pos = rng.randint(0, len(s)); t = rs(6)
-            if rng.random() < 0.3: L.append("printpct %d %d %s" % (o, pos, hx(t))); cur[o] = s[:pos] + t + b"%" + t + b"|"
+            if rng.random() < 0.15 and 2 * len(s) < maxlen: L.append("printself %d %d" % (o, pos)); cur[o] = s[:pos] + s
+            elif rng.random() < 0.3: L.append("printpct %d %d %s" % (o, pos, hx(t))); cur[o] = s[:pos] + t + b"%" + t + b"|"
             else: L.append("printat %d %d %s" % (o, pos, hx(t))); cur[o] = s[:pos] + t
         elif r < 0.88:
             p = rng.choice([1, 2, 3])
